@@ -78,7 +78,7 @@ fn in_mask<const U: usize>(u: &[u32; U], mask: u8, x: u32) -> bool {
 /// symbolic universe of U ids. The oracle is extensional: for an arbitrary probe id p, membership
 /// of p in the result equals the documented set expression, and the result is strictly ascending
 /// (so it is *the* representation of that set).
-fn ancestor_algebra<const U: usize>() {
+fn ancestor_algebra<const U: usize>(part: u8) {
     let o = empty_ontology_cap(1, 1);
     let u = universe::<U>();
     let ma: u8 = kani::any();
@@ -96,14 +96,25 @@ fn ancestor_algebra<const U: usize>() {
     let pid = HpoTermId::from_u32(p);
     let in_a = in_mask(&u, ma, p);
     let in_b = in_mask(&u, mb, p);
+    kani::cover!(ma != 0 && mb != 0 && ma != mb, "two different non-empty ancestor sets");
 
-    let common = a.common_ancestor_ids(&b);
-    assert!(is_sorted_set(&common));
-    assert!(common.contains(&pid) == (in_a && in_b), "common ancestors = A ∩ B");
+    if part == 0 {
+        let common = a.common_ancestor_ids(&b);
+        assert!(is_sorted_set(&common));
+        assert!(common.contains(&pid) == (in_a && in_b), "common ancestors = A ∩ B");
 
-    let all_common = a.all_common_ancestor_ids(&b);
-    assert!(is_sorted_set(&all_common));
-    assert!(all_common.contains(&pid) == ((in_a || p == ida) && (in_b || p == idb)), "all_common = (A + a) ∩ (B + b)");
+        let all_common = a.all_common_ancestor_ids(&b);
+        assert!(is_sorted_set(&all_common));
+        assert!(all_common.contains(&pid) == ((in_a || p == ida) && (in_b || p == idb)), "all_common = (A + a) ∩ (B + b)");
+        assert!(a.common_ancestors(&b).len() == common.len());
+        assert!(a.all_common_ancestors(&b).len() == all_common.len());
+        assert!(a.common_ancestors(&b).is_empty() == common.is_empty());
+        kani::cover!(in_a && in_b, "opt: probe is a common ancestor");
+        kani::cover!(p == ida && in_b, "opt: a is an ancestor of b");
+        kani::cover!(ida == idb, "opt: same term id on both sides");
+        core::mem::forget(o);
+        return;
+    }
 
     let union = a.union_ancestor_ids(&b);
     assert!(is_sorted_set(&union));
@@ -125,35 +136,49 @@ fn ancestor_algebra<const U: usize>() {
     assert!(self_incl || self_excl, "self/other either both included or only as ancestors");
 
     // the Combined-returning variants carry the same number of ids
-    assert!(a.common_ancestors(&b).len() == common.len());
-    assert!(a.all_common_ancestors(&b).len() == all_common.len());
     assert!(a.union_ancestors(&b).len() == union.len());
-    assert!(a.common_ancestors(&b).is_empty() == common.is_empty());
+    assert!(a.all_union_ancestors(&b).len() == all_union.len());
 
-    kani::cover!(in_a && in_b, "probe is a common ancestor");
-    kani::cover!(p == ida && in_b, "a is an ancestor of b");
-    kani::cover!(ida == idb, "same term id on both sides");
-    kani::cover!(ma != mb && ma & mb != 0, "overlapping different ancestor sets");
+    kani::cover!(in_a && !in_b, "opt: probe is an ancestor of one term only");
+    kani::cover!(ma != mb && ma & mb != 0, "opt: overlapping different ancestor sets");
     core::mem::forget(o);
 }
 
 #[kani::proof]
 #[kani::stub(std::hash::RandomState::new, stub_random_state)]
 #[kani::unwind(8)]
-fn c12_ancestor_algebra_u2() {
-    ancestor_algebra::<2>();
+fn c12_ancestor_common_u2() {
+    ancestor_algebra::<2>(0);
 }
 #[kani::proof]
 #[kani::stub(std::hash::RandomState::new, stub_random_state)]
 #[kani::unwind(8)]
-fn c12_ancestor_algebra_u3() {
-    ancestor_algebra::<3>();
+fn c12_ancestor_union_u2() {
+    ancestor_algebra::<2>(1);
 }
 #[kani::proof]
 #[kani::stub(std::hash::RandomState::new, stub_random_state)]
 #[kani::unwind(8)]
-fn c12_ancestor_algebra_u4() {
-    ancestor_algebra::<4>();
+fn c12_ancestor_common_u3() {
+    ancestor_algebra::<3>(0);
+}
+#[kani::proof]
+#[kani::stub(std::hash::RandomState::new, stub_random_state)]
+#[kani::unwind(8)]
+fn c12_ancestor_union_u3() {
+    ancestor_algebra::<3>(1);
+}
+#[kani::proof]
+#[kani::stub(std::hash::RandomState::new, stub_random_state)]
+#[kani::unwind(8)]
+fn c12_ancestor_common_u4() {
+    ancestor_algebra::<4>(0);
+}
+#[kani::proof]
+#[kani::stub(std::hash::RandomState::new, stub_random_state)]
+#[kani::unwind(8)]
+fn c12_ancestor_union_u4() {
+    ancestor_algebra::<4>(1);
 }
 
 // ---------------------------------------------------------------------------------------------
